@@ -44,4 +44,23 @@ theorem legacy_torn_read_with_rescan_patch (ops₁ ops₂ : List Op) (hwf : OpsW
     ops₂ nl₁ h1 hwf2
   exact linv_tornStorage nl₁.chain nl₂.chain nl₁.st nl₂.st h1 h2 n hsame a k
 
+/-- proposed-fixes/C03-casm-migration-stores-the-hash-of-the-diff.diff (`migValFix`), on the witness
+of `Props.casm_migration_foreign_hash_counterexample` only (no general theorem): with the patch the
+views of the migration block and the head answer the hash of the diff, on both backends; a revert of
+the migration gives the declared hash back. -/
+theorem casm_migration_with_patch_example :
+    let ops : List Op :=
+      [.store 1 { Diff.empty with declared1 := [⟨0x51, 0xa1, 0xb1⟩] },
+       .store 2 { Diff.empty with v2 := true, migrated := [(0x51, 0xabc)] }]
+    let cfg : Cfg := { Cfg.current with migValFix := true }
+    (run (newBackend cfg) (Node.init (newBackend cfg)) ops).map
+      (fun nd => (nd.readCasm (newBackend cfg) (.num 0) 0x51, nd.readCasm (newBackend cfg) (.num 1) 0x51,
+                  nd.readCasm (newBackend cfg) .head 0x51)) =
+      some (some (.ok 0xa1), some (.ok 0xabc), some (.ok 0xabc)) ∧
+    (run (legacyBackendOf true) (Node.init (legacyBackendOf true)) ops).map
+      (fun nd => (nd.readCasm (legacyBackendOf true) (.num 1) 0x51, nd.readCasm (legacyBackendOf true) .head 0x51)) =
+      some (some (.ok 0xabc), some (.ok 0xabc)) ∧
+    (run (legacyBackendOf true) (Node.init (legacyBackendOf true)) (ops ++ [.revert])).map
+      (fun nd => nd.readCasm (legacyBackendOf true) .head 0x51) = some (some (.ok 0xa1)) := by decide
+
 end Juno.C03.Patch
